@@ -1408,6 +1408,15 @@ func (interpreter *Interpreter) declareNonEnumCompositeValue(
 						// activations existing at the time when the event was defined and use them here
 						declarationActivation,
 					)
+					// the default arguments are plain expression results: convert and box them
+					// to the declared parameter types, as an explicit invocation would
+					for i, argument := range invocation.Arguments {
+						invocation.Arguments[i] = ConvertAndBox(
+							invocationInterpreter,
+							argument,
+							compositeType.ConstructorParameters[i].TypeAnnotation.Type,
+						)
+					}
 				}
 
 				for i, argument := range invocation.Arguments {
